@@ -123,7 +123,15 @@ class ExprMixin:
             outs = []
             for c in base.callee:
                 if c[0] == "ext":
-                    outs.append(Val(callee=[("ext", c[1] + "." + name)], tags=["module:" + c[1] + "." + name]))
+                    q = c[1] + "." + name
+                    if q in ("numpy.nan", "math.nan", "numpy.NaN"):
+                        outs.append(Val(const=("nan",), tags=["nan"]))
+                    elif q in ("numpy.inf", "math.inf"):
+                        outs.append(Val(const=("inf",)))
+                    elif q == "numpy.newaxis":
+                        outs.append(Val(const=None))
+                    else:
+                        outs.append(Val(callee=[("ext", q)], tags=["module:" + q]))
                 elif c[0] == "class":
                     ci = c[1]
                     if name in ci.inner:
